@@ -446,6 +446,7 @@ func (w *World) siblingCounterByInterp(cl *ssa.Function, name string) (string, b
 				st := w.initState()
 				ctx := st.newObj(nil, nil)
 				ctx.Extern = true
+				ctx.Fields[sibPos] = aInt(int64(P))
 				var curs []*AObj
 				movedCtx := false
 				var hooks AHooks
@@ -461,10 +462,10 @@ func (w *World) siblingCounterByInterp(cl *ssa.Function, name string) (string, b
 							c.Fields[sibPos] = aInt(int64(P))
 							curs = append(curs, c)
 							return true, AVal{Kind: avPtr, Obj: c, Field: -1, Tag: "cur"}
-						case args[0].Tag == "ctx" && w.navMethodClass(m) == "move":
-							movedCtx = true
-							return true, aUnknown(nil)
-						case args[0].Tag == "cur" && w.navMethodClass(m) == "move":
+						case (args[0].Tag == "cur" || args[0].Tag == "ctx") && w.navMethodClass(m) == "move":
+							if args[0].Tag == "ctx" {
+								movedCtx = true // the walk is still simulated, so that the verdict is about the cursor
+							}
 							o := s2.obj(args[0].Obj)
 							k, _ := o.Fields[sibPos].Int()
 							switch m {
@@ -493,7 +494,7 @@ func (w *World) siblingCounterByInterp(cl *ssa.Function, name string) (string, b
 					if callee != nil && w.inPkg(callee) && callee.Signature.Recv() == nil && len(args) == 1 && args[0].Tag == "q" && callee.Signature.Results().Len() == 1 && w.isPredicateFuncType(callee.Signature.Results().At(0).Type()) {
 						return true, AVal{Kind: avUnknown, Tag: "test"}
 					}
-					if callee == nil && ai.CallValue.Tag == "test" && len(args) == 1 && args[0].Tag == "cur" {
+					if callee == nil && ai.CallValue.Tag == "test" && len(args) == 1 && (args[0].Tag == "cur" || args[0].Tag == "ctx") {
 						k, _ := s2.obj(args[0].Obj).Fields[sibPos].Int()
 						if k < 0 || int(k) >= N {
 							return true, aUnknown(nil)
@@ -735,4 +736,12 @@ func (w *World) testMethodName() string {
 		})
 	}
 	return name
+}
+
+// ruleSiblingCounters: the sibling-counter clause of N-POS on its own, for
+// properties that need only "position() and last() leave the context cursor
+// where it was" (they count on a copy).
+func ruleSiblingCounters(w *World, r *Report) {
+	r.rule("C03-LAST", "position()/last(), followed by constant propagation on rows of one to three siblings with the context node at every index and every pattern of node-test verdicts: the count is right and only a copy of the context cursor is moved")
+	w.checkSiblingCounters(r)
 }
